@@ -85,7 +85,26 @@ def run_c14(ctx):
             res.violations.append({"kind": "reported balance is not the total of unspent outputs paying wallet keys",
                                    "reported": w.get_balance(cs), "expected": balance, "property": "C15"})
         ever_used = set()
+        pending = []
         for step in range(ctx.scale(12, 25)):
+            if rng.random() < 0.3:
+                # the ledger moves between two spends: a new block pays one of the wallet's keys (anywhere in the wallet's
+                # key order) and may confirm some of the wallet's pending spends
+                conf, used_refs = [], set()
+                for t_ in pending:
+                    refs_ = {i.output_reference for i in t_.inputs}
+                    if rng.random() < 0.4 and all(r in utxo for r in refs_) and not (refs_ & used_refs):
+                        conf.append(t_)
+                        used_refs |= refs_
+                nb = tree.extend(head, txs=conf, miner=rng.randrange(0, n_keys))
+                pending = [t_ for t_ in pending if t_ not in conf]
+                cs = tree.cs
+                head = cs.current_chain_hash
+                utxo = cs.unspent_transaction_outs_by_hash[head]
+                owned = {r: o for r, o in utxo.items() if o.public_key.public_key in w.keypairs}
+                ops.append("addnv t t " + hx(nb.serialize()))
+                impl.append("ok")
+                res.count("ledger_moved_between_spends")
             remaining = sum(o.value for r, o in owned.items() if r not in w.spent_transaction_outputs)
             mode = rng.choice(["small", "small", "half", "exact", "exact_fee", "prefix_exact", "prefix_exact", "over",
                                "way_over", "tiny"])
@@ -162,6 +181,7 @@ def run_c14(ctx):
                 if len(set(refs)) != len(refs):
                     res.violations.append({**info, "kind": "the same output is spent twice in one transaction"})
                 ever_used |= set(refs)
+                pending.append(tx)
                 if set(w.spent_transaction_outputs) != before_spent | set(refs):
                     res.violations.append({**info, "kind": "record of used outputs is not the old record plus the inputs"})
                 for i in tx.inputs:
